@@ -11,7 +11,9 @@ ROUTING_NOTE = ("Trusted: TLC and the Json community module, Go's net/http reque
 CHECKS = {
  "C01": ("TLC exhaustive small-scope model checking of the routing specification (Layer A theorems, Layer B CurlyImpl inside Layer A) "
          "+ replay of every explored case on the real routers (Dispatch, ServeHTTP, 8 goroutines at once, nested dispatch from inside a handler) "
-         "+ TLC trace validation of real-code observations (RoutingTrace, clause C01.*)",
+         "+ TLC trace validation of real-code observations (RoutingTrace, clause C01.*) "
+         "+ declaration-history stage: TLC exhaustive model checking of Builder.tla (MC_Builder) with one replayed API-call history per state and "
+         "trace validation of WebService.Routes() after every call (BuilderTrace, clause C01.decl)",
          "Every (table, request) of the bounded pools is enumerated by TLC and replayed on real containers under both routers and "
          "both entry points; every observation of the real code - also from seeded random tables with near-miss requests - is judged "
          "by the property-level specification: a route function may only run when Admits holds (method, path May-match, Consumes, "
@@ -48,7 +50,8 @@ CHECKS = {
  "C05": ("TLC exhaustive model checking of MC_Negotiation (Layer A theorems: membership, no 406 after admission, whitespace/parameter invariance; "
          "Layer B EntityWriter inside Layer A; legacy parser counter-model refuted) + replay of every state in 7 header styles on the real "
          "Response.WriteEntity (pretty and streaming writer branch, Content-Type as frozen at WriteHeader, every case asked for once before its writers are registered) "
-         "+ TLC trace validation (NegoTrace) of random Accept-grammar headers",
+         "+ TLC trace validation (NegoTrace) of random Accept-grammar headers; one route serves every header of a case (with other requests in between; half of the cases "
+         "behind a middleware that wraps the ResponseWriter) + declaration-history stage (Builder.tla / MC_Builder / BuilderTrace: Produces inherited from the WebService, clauses C05.decl / member / best)",
          "The allowed representation set BestSet is defined in TLA+ for every reading the property leaves open; every real write (12 "
          "repetitions per request to expose map-order nondeterminism) is judged against it.", "6 C05",
          "Trusted: TLC, Json module, net/http; SP is the only optional whitespace generated; at least one Produces entry has a registered writer."),
@@ -67,7 +70,8 @@ CHECKS = {
  "C06": ("TLC exhaustive model checking of MC_Dispatch (Container.dispatch as a state machine, one action per code step; the Layer A monitor "
          "Dispatch!Step accepts every behaviour; counter-model SharedChain refuted) + replay of every configuration on the real Container "
          "(Dispatch, ServeHTTP, HandleWithFilter; two requests in sequence) + TLC trace validation (DispatchTrace, clauses C06.*) of event logs "
-         "written by generated filters/handlers (native, net/http middleware, real CORS filters), incl. random chains of up to 15 filters and 8-goroutine batches (per-request projection)",
+         "written by generated filters/handlers (native, net/http middleware, real CORS filters), incl. random chains of up to 15 filters and 8-goroutine batches (per-request projection) "
+         "+ declaration-history stage (Builder.tla / MC_Builder / BuilderTrace: route filters are the builder's at registration, WebService filters apply to all its routes whenever added; clause C06.decl)",
          "Order, exactly-once, short-circuit, pair/attribute propagation and the error-path rule are enabling conditions of the monitor's "
          "actions; every per-request event log of the real code must be a behaviour of the monitor.", "6 C06", "Trusted: TLC, Json module, net/http/httptest, compress/*; filters call ProcessFilter at most once; payload fidelity enters the specification as logged booleans."),
  "C07": ("same pipeline; the monitor's acquire/release ledger (C07.once) and the pure coding-decision clauses C07.label / mention / enabled / pre / "
